@@ -59,12 +59,14 @@ type termShard struct {
 	m  map[string]*Term
 }
 
-var termTab [termShards]termShard
+var termTab = newTermTab()
 
-func init() {
-	for i := range termTab {
-		termTab[i].m = map[string]*Term{}
+func newTermTab() *[termShards]termShard {
+	t := new([termShards]termShard)
+	for i := range t {
+		t[i].m = map[string]*Term{}
 	}
+	return t
 }
 
 func shardOf(s string) *termShard {
